@@ -98,6 +98,12 @@ def run(vc):
               "island behind an out-of-service line; out-of-service ext_grid with a second slack gen): buses with NaN voltage == unsupplied or "
               "out-of-service buses, loads there report zero, all other buses finite",
         script="from replaylib.supplied import main\nmain()\n"))
+    vc.native_standins.append(dict(
+        name="dead buses: supply only through an out-of-service bus, voltage dependent loads, out-of-service ext_grid",
+        bound="3 fixed networks: a part of the network connected only through an out-of-service bus (rundcpp and runpp: that part is NaN, the "
+              "rest finite); voltage dependent loads in a net with loads at an unsupplied and at an out-of-service bus (zero power there); an "
+              "out-of-service ext_grid next to a slack gen (reports zero) -- _check_connectivity (graph search) is not under a deductive contract",
+        script="from replaylib.supplied import main_more\nmain_more()\n"))
 
 
 def classify(ob, model):
